@@ -974,6 +974,10 @@ coap_oscore_decrypt_pdu(coap_session_t *session,
           coap_bin_const_t kid_context;
 
           kid_context.length = oscore_cbor_get_element_size(&ptr, &length);
+          if (kid_context.length > length) {
+            coap_log_warn("OSCORE: kid context CBOR size exceeds the option\n");
+            goto error;
+          }
           kid_context.s = ptr;
           cose_encrypt0_set_kid_context(cose, (coap_bin_const_t *)&kid_context);
 
@@ -1081,6 +1085,10 @@ coap_oscore_decrypt_pdu(coap_session_t *session,
           coap_bin_const_t kid_context;
 
           kid_context.length = oscore_cbor_get_element_size(&ptr, &length);
+          if (kid_context.length > length) {
+            coap_log_warn("OSCORE: kid context CBOR size exceeds the option\n");
+            goto error;
+          }
           kid_context.s = ptr;
           cose_encrypt0_set_kid_context(cose, &kid_context);
         }
